@@ -1,7 +1,7 @@
 """C14 — SETTINGS and PING acknowledged exactly once, in order; settings apply at the ACK."""
 from .. import core
 from ..core import strip, walk, mentions_field
-from . import C08
+from . import C08, C02
 
 EXPLANATION = (
     "Decides: (R1 = C08.R1) at most one un-acknowledged SETTINGS / PING exists when the next frame is read, so "
@@ -10,7 +10,7 @@ EXPLANATION = (
     "buffered in between, and the slot is cleared; (R3) each honoured setting has its consumer reachable only from that "
     "ACK path; (R4) local settings are applied to the receive side only from the peer's ACK while WaitingAck, and the "
     "3-state local machine moves ToSend->WaitingAck->Synced only there; (R5) a stray ACK is a connection PROTOCOL_ERROR; "
-    "(R6) the PONG echoes the received payload. Ordering inside the write buffer after the ACK is NOT decided."
+    "(R6) the PONG echoes the received payload; (R7) an owed SETTINGS-ack / PONG slot is emptied only on paths that buffered the reply (no loss under write back-pressure); (R8 = C02.R5/R5b) the INITIAL_WINDOW_SIZE delta reaches every stream that can still send, increase and decrease alike. Ordering inside the write buffer after the ACK is NOT decided."
 )
 NOT_DECIDED = "'never by more' beyond the slot argument; that frames after the ACK on the wire obey the new values"
 
@@ -186,8 +186,47 @@ def r6_pong(ctx):
         r.check(ok, 'pong|ctor', pg.file, 'Ping::pong(payload) = Ping { ack: true, payload }: %s' % (core.show(agg[0]) if agg else None))
 
 
+def r7_no_loss(ctx):
+    r = ctx.rule('C14.R7', 'PAIR', 'an owed acknowledgement is never dropped: its slot is emptied only on paths that buffered the reply')
+    F = ctx.facts
+    from .. import slots
+
+    def buffers(name):
+        def pred(fn, bi, t):
+            return t['fn'] == BUFFER and core.contains_call(fn.expr_of_op(t['a'][1]), name)
+        return pred
+    n = 0
+    for owner, field, drain, ack in (
+            (SET, 'remote', SET + '::poll_send', 'frame::settings::Settings::ack'),
+            ('proto::ping_pong::PingPong', 'pending_pong', 'proto::ping_pong::PingPong::send_pending_pong', 'frame::ping::Ping::pong')):
+        f = r.fn(drain)
+        if not f:
+            continue
+        try:
+            exits, parent = slots.loss_scan(F, f, owner, field, buffers(ack))
+        except core.Cap as e:
+            r.bad('no-loss|%s|cap' % field, f.file, str(e))
+            continue
+        owed_seen = False
+        for (bi, (val, owed), rc, st) in exits:
+            n += 1
+            if rc == 'Err' or rc.startswith('Ready:Err') or rc.startswith('Err'):
+                continue  # the connection is torn down
+            if owed:
+                owed_seen = True
+            lost = owed and val == 'N'
+            r.check(not lost, 'no-loss|%s|%s' % (field, rc), f.loc(bi),
+                    '%s exit %s: slot %s, reply %s' % (drain.split('::')[-1], rc, {'N': 'emptied', 'S': 'kept', '?': 'unchanged'}[val], 'still owed — the received frame is forgotten and never acknowledged' if lost else ('still owed (slot kept)' if owed else 'buffered or nothing owed')),
+                    witness=core.compress_path(f, [x['bb'] for x in core.witness_path(f, parent, bi, st)]))
+        r.check(owed_seen, 'no-loss|%s|back-pressure-exit' % field, f.file, '%s has an exit that keeps the slot while the codec is not ready' % drain.split('::')[-1])
+    r.floor(n, 6, 'drain exits examined')
+
+
 def run(ctx):
     C08.r1_slots(ctx, 'C14.R1')
+    r7_no_loss(ctx)
+    C02.r5_settings_delta(ctx, 'C14.R8')
+    C02.r5b_same_streams(ctx, 'C14.R8b')
     r2_ack_apply(ctx)
     r3_consumers(ctx)
     r4_local(ctx)
